@@ -100,7 +100,7 @@ def run(rep, tier, seed, deep=False):
         steps = S.collect(S.WRITABLE, n_hist, n_ops, rng)
         trees = S.small_trees()
         ops = S.exhaustive_small_ops()
-        for kind in (["mem", "os"] if quick else ["mem", "os", "sub-mem", "mount-root", "multi", "wrap-mem"]):
+        for kind in (["mem", "os", "sub-mem"] if quick else ["mem", "os", "sub-mem", "sub-os", "mount-root", "multi", "wrap-mem"]):
             steps += S.exhaustive_steps(kind, trees, ops, limit=None)
         rep.programs = len(set(s.hist_id for s in steps))
         for s, m in S.with_model(drv, steps):
